@@ -1,11 +1,82 @@
 import EpdVerif.Drivers.Dsl
 import EpdVerif.Gen.Epd2in7b
-/-! model of `src/epd2in7b/mod.rs` (STUB: programs not yet transcribed) -/
+/-! model of `src/epd2in7b/mod.rs` -/
 namespace EpdVerif.Drivers.Epd2in7b
 open EpdVerif
 open EpdVerif.Gen.Epd2in7b
 
-def prog (_f : Feat) (_d : DState) : Op → Option (List Act)
+def W : Act := .wait IS_BUSY_LOW
+
+def setLut : List Act :=
+  [W] ++
+  cmdData Command.LutForVcom LUT_VCOM_DC ++
+  cmdData Command.LutWhiteToWhite LUT_WW ++
+  cmdData Command.LutBlackToWhite LUT_BW ++
+  cmdData Command.LutWhiteToBlack LUT_WB ++
+  cmdData Command.LutBlackToBlack LUT_BB
+
+def init : List Act :=
+  [.reset 10000 2000] ++
+  [.cmd Command.PowerOn, .delayUs 5000, W] ++
+  cmdData Command.PanelSetting [0xaf] ++
+  cmdData Command.PllControl [0x3a] ++
+  cmdData Command.PowerSetting [0x03, 0x00, 0x2b, 0x2b, 0x09] ++
+  cmdData Command.BoosterSoftStart [0x07, 0x07, 0x17] ++
+  cmdData Command.PowerOptimization [0x60, 0xa5] ++
+  cmdData Command.PowerOptimization [0x89, 0xa5] ++
+  cmdData Command.PowerOptimization [0x90, 0x00] ++
+  cmdData Command.PowerOptimization [0x93, 0x2a] ++
+  cmdData Command.PowerOptimization [0x73, 0x41] ++
+  cmdData Command.VcmDcSetting [0x12] ++
+  cmdData Command.VcomAndDataIntervalSetting [0x87] ++
+  setLut ++
+  cmdData Command.PartialDisplayRefresh [0x00] ++ [W]
+
+/-- `send_buffer_helper`: one `data(&[!b])` call per byte -/
+def sendBufferHelper (b : Bytes) : List Act := dataEach (b.map (fun x => ~~~x))
+
+def updateFrame (d : DState) (b : Bytes) : List Act :=
+  [.cmd Command.DataStartTransmission1] ++ sendBufferHelper b ++
+  [.cmd Command.DataStartTransmission2, .rep (~~~(byteValue d.bg)) (WIDTH / 8 * HEIGHT),
+   .cmd Command.DataStop]
+
+/-- the 8-byte window header, one `data` call per byte -/
+def windowHeader (x y w h : Nat) : List Act :=
+  dataEach [shr8 x 8, u8 (x &&& 0xf8), shr8 y 8, u8 (y &&& 0xff),
+            shr8 w 8, u8 (w &&& 0xf8), shr8 h 8, u8 (h &&& 0xff)]
+
+def updateAchromatic (b : Bytes) : List Act :=
+  [.cmd Command.DataStartTransmission1] ++ sendBufferHelper b ++ [.cmd Command.DataStop]
+
+def updateChromatic (c : Bytes) : List Act :=
+  [.cmd Command.DataStartTransmission2] ++ sendBufferHelper c ++ [.cmd Command.DataStop, W]
+
+def prog (_f : Feat) (d : DState) : Op → Option (List Act)
+  | .new => some init
+  | .wake => some init
+  | .sleep => some ([W] ++ cmdData Command.VcomAndDataIntervalSetting [0xf7] ++
+      [.cmd Command.PowerOff, W] ++ cmdData Command.DeepSleep [0xA5])
+  | .upd b => some (updateFrame d b)
+  | .part b x y w h => some ([.cmd Command.PartialDataStartTransmission1] ++
+      windowHeader x y w h ++ [W] ++ sendBufferHelper b ++ [.cmd Command.DataStop])
+  | .disp => some [.cmd Command.DisplayRefresh, W]
+  | .updisp b => some (updateFrame d b ++ [.cmd Command.DisplayRefresh])
+  | .clear => some [W,
+      .cmd Command.DataStartTransmission1, .rep (byteValue d.bg) (WIDTH / 8 * HEIGHT),
+      .cmd Command.DataStop,
+      .cmd Command.DataStartTransmission2, .rep (byteValue d.bg) (WIDTH / 8 * HEIGHT),
+      .cmd Command.DataStop]
+  | .bg c => some [.upd (fun d => { d with bg := c })]
+  | .lut _ => some setLut
+  | .wait => some [W]
+  | .color b c => some (updateAchromatic b ++ updateChromatic c)
+  | .achro b => some (updateAchromatic b)
+  | .chro c => some (updateChromatic c)
+  | .dpart x y w h => some ([.cmd Command.PartialDisplayRefresh] ++ windowHeader x y w h ++ [W])
+  | .pachro b x y w h => some ([.cmd Command.PartialDataStartTransmission1] ++
+      windowHeader x y w h ++ [W] ++ sendBufferHelper b)
+  | .pchro b x y w h => some ([.cmd Command.PartialDataStartTransmission2] ++
+      windowHeader x y w h ++ [W] ++ sendBufferHelper b)
   | _ => none
 
 def panel (f : Feat) : Panel :=
